@@ -162,8 +162,20 @@ def _to_bytes(v):
 
 # ---------------------------------------------------------------------------
 # classification of exceptions
+_MSG_FRAME = None
+
+
 def repo_frames(exc):
-  """Frames of exc's traceback (and of its causes) that lie in /repo/qkeras."""
+  """Frames of exc's traceback (and of its causes) that lie in /repo/qkeras.
+
+  Keras / autograph re-raise layer errors with a filtered traceback and put
+  the user-code frames into the message ('File "/repo/qkeras/x.py", line N, in
+  f'); those count too."""
+  global _MSG_FRAME
+  import re
+  if _MSG_FRAME is None:
+    _MSG_FRAME = re.compile(r'File "%s([^"]+)", line \d+, in (\w+)' %
+                            re.escape(REPO_PKG))
   out = []
   seen = set()
   e = exc
@@ -174,6 +186,8 @@ def repo_frames(exc):
       if fn.startswith(REPO_PKG):
         out.append((os.path.relpath(fn, REPO_PKG), fs.name))
     e = e.__cause__ or e.__context__
+  if not out:
+    out = [(m.group(1), m.group(2)) for m in _MSG_FRAME.finditer(str(exc))]
   return out
 
 
